@@ -29,6 +29,7 @@ from common import Violation, sexp, Atom, parse_sexp
 
 TITLE = "solver text I/O"
 LEVEL = "proof"
+DOMAINS = ['Text']
 
 
 # --------------------------------------------------------------------------- plumbing
@@ -255,6 +256,14 @@ def dimacs_read(text):
     return nv, nc, clauses, inds
 
 
+def solver_says_sat(clauses):
+    import pycryptosat
+    s = pycryptosat.Solver()
+    for c in clauses:
+        s.add_clause(c)
+    return bool(s.solve()[0])
+
+
 def mset(cls):
     return Counter(tuple(c) for c in cls)
 
@@ -267,7 +276,25 @@ def brute_models(clauses, nvars):
 
 # --------------------------------------------------------------------------- the property on the real code
 
+def robust(f):
+    """An exception escaping the real code during a property evaluation is a failing input, not a harness crash."""
+    def g(*a, **k):
+        try:
+            return f(*a, **k)
+        except Exception as e:  # noqa
+            return {"problem": "the real code raised %s: %s" % (type(e).__name__, str(e)[:120])}
+    g.__name__ = f.__name__
+    return g
+
+
 def prop_saved_text(m, init, fresh, support, reqs):
+    try:
+        return _prop_saved_text(m, init, fresh, support, reqs)
+    except Exception as e:  # noqa
+        return [("text:raises", {"problem": "the real code raised %s: %s" % (type(e).__name__, str(e)[:120])})]
+
+
+def _prop_saved_text(m, init, fresh, support, reqs):
     """combine_and_save_cnf writes a faithful file and both library parsers
     recover it.  Returns a list of (sig, detail)."""
     CNF = m["cnf"].CNF
@@ -304,6 +331,7 @@ def prop_saved_text(m, init, fresh, support, reqs):
     return bad
 
 
+@robust
 def prop_blocking(m, cls, support, prev):
     """update_file adds exactly one clause, which excludes exactly `prev` on
     the support variables."""
@@ -329,6 +357,7 @@ def prop_blocking(m, cls, support, prev):
     return None
 
 
+@robust
 def prop_loop(m, cls, nvars, support):
     """The real iterate loop (real pycryptosat) returns exactly the projected
     models, each once."""
@@ -350,6 +379,7 @@ def prop_loop(m, cls, nvars, support):
     return None
 
 
+@robust
 def prop_roundtrip(m, bools, support):
     """Formatting a pycryptosat model and parsing it back gives the model."""
     rec = Rec()
@@ -365,6 +395,7 @@ def prop_roundtrip(m, bools, support):
     return None
 
 
+@robust
 def prop_sampler(m, cls, nvars, support, use_cmsgen):
     """Real pyunigen / pycmsgen path: the sampling set handed over is
     1..support and every returned sample is a projected model."""
@@ -413,6 +444,7 @@ def run(ctx, res):
                 "0-2 cardinality requests; parser inputs = model-printed files plus files with injected noise lines; a case is "
                 "non-trivial if it has at least one clause; distinct by input")
     mism = {}
+    oc = Counter()      # how often each model outcome occurred (error branches are exercised too)
 
     def note(layer, ok, case):
         res.layer(layer, ok)
@@ -421,7 +453,7 @@ def run(ctx, res):
 
     # ---- T1 printers: __str__, as_dimacs_string, as_unigen_string, save_cnf ------------------
     cases, lines = [], []
-    for _ in range(150 if q else 1500):
+    for _ in range(600 if q else 3000):
         cls = rand_cnf(rng)
         fvc = rng.choice([None, None, rng.randint(0, 40)])
         sup = rng.choice([None, 0, 1, 9, 10, 11, 20, 21, rng.randint(0, 25)])
@@ -453,7 +485,7 @@ def run(ctx, res):
 
     # ---- T2 combine_and_save_cnf ---------------------------------------------------------------
     cases, lines = [], []
-    for _ in range(60 if q else 600):
+    for _ in range(240 if q else 1200):
         cls = rand_cnf(rng, rng.choice(["contig", "gaps"]), maxcl=5)
         fresh = max([abs(l) for c in cls for l in c] + [rng.randint(1, 6)]) if rng.random() < 0.7 else rng.randint(1, 8)
         reqs = rand_reqs(rng, fresh)
@@ -479,13 +511,22 @@ def run(ctx, res):
                 p.unlink()
 
     # ---- T3 parsers on model-printed and noisy text ------------------------------------------
-    files = [f for f in printed if f is not None][: (120 if q else 900)]
-    files += [noisy_file(rng, rng.choice(files)) for _ in range(250 if q else 2500)]
+    files = [f for f in printed if f is not None][: (480 if q else 1800)]
+    files += [noisy_file(rng, rng.choice(files)) for _ in range(1000 if q else 5000)]
     lines = []
     for f in files:
         w = wire_file(f)
-        lines += [sexp([Atom("parse_cms"), w]), sexp([Atom("parse_unigen"), w]), sexp([Atom("sampler_input"), w])]
-    outs = ctx.model(lines)
+        lines += [sexp([Atom("parse_cms"), w]), sexp([Atom("parse_unigen"), w])]
+    outs12 = ctx.model(lines)
+    # call_unigen_python asks pycryptosat whether the parsed clauses are satisfiable before it samples;
+    # the solver is outside the model, its answer is an input of `sampler_input`
+    lines, outs = [], []
+    for i, f in enumerate(files):
+        mo = outs12[2 * i + 1]
+        lines.append(sexp([Atom("sampler_input"), solver_says_sat(parse_sexp(mo)[0]) if mo != "none" else True, wire_file(f)]))
+    outs3 = ctx.model(lines)
+    for i in range(len(files)):
+        outs += [outs12[2 * i], outs12[2 * i + 1], outs3[i]]
     rec = Rec()
     with scratch() as d, quiet(), patched(m["cm"], "pycryptosat", fake_pycryptosat(rec)), \
             patched(m["ug"], "pyunigen", fake_pyunigen(rec)):
@@ -497,6 +538,9 @@ def run(ctx, res):
             rec.clauses = None
             r = guard(lambda: m["cm"]._use_pycryptosat_library(p))
             mo = outs[3 * i]
+            oc["parse_cms:" + ("error" if mo == "none" else "ok")] += 1
+            oc["parse_cnf_file:" + ("error" if outs[3 * i + 1] == "none" else "ok")] += 1
+            oc["sampler_input:" + (outs[3 * i + 2] if outs[3 * i + 2] in ("none", "empty") else "ok")] += 1
             if isinstance(r, tuple):
                 ok = mo == "none"
             else:
@@ -529,7 +573,7 @@ def run(ctx, res):
 
     # ---- T4 solver output: pycryptosat formatting, v-line parsing, the iterate step ------------
     cases, lines = [], []
-    for _ in range(120 if q else 1200):
+    for _ in range(480 if q else 2400):
         n = rng.randint(0, 14)
         bools = [rng.random() < 0.5 for _ in range(n)]
         sup = rng.randint(0, n + 2)
@@ -570,7 +614,7 @@ def run(ctx, res):
             res.count(("solver-out", tuple(bools), sup), nontrivial=len(bools) > 0)
     # CLI-shaped output (several v lines, comments, junk)
     cases, lines = [], []
-    for _ in range(80 if q else 800):
+    for _ in range(320 if q else 1600):
         n = rng.randint(0, 12)
         lits = [(i + 1) * rng.choice([-1, 1]) for i in range(n)] + [0]
         f = [["s", "SATISFIABLE"]]
@@ -595,7 +639,7 @@ def run(ctx, res):
     cases, lines = [], []
     base = [["p", "cnf", "6", "2"], ["c", "ind", "1", "2", "3", "0"], ["1", "2", "0"], ["-4", "5", "6", "0"], []]
     base_nss = [["p", "cnf", "4", "1"], [], ["1", "-2", "0"], []]
-    for _ in range(60 if q else 600):
+    for _ in range(240 if q else 1200):
         k = rng.randint(1, 4)
         samples = [[(i + 1) * rng.choice([-1, 1]) for i in range(rng.randint(0, 5))] for _ in range(k)]
         sols = [[rng.random() < 0.5 for _ in range(rng.randint(1, 8))] for _ in range(k)]
@@ -653,7 +697,7 @@ def run(ctx, res):
     # ---- T6 update_file on arbitrary files (error paths included) -------------------------------
     cases, lines = [], []
     pool = [f for f in printed if f is not None]
-    for _ in range(150 if q else 1500):
+    for _ in range(600 if q else 3000):
         f = [list(x) for x in rng.choice(pool)]
         r = rng.random()
         if r < 0.1:
@@ -672,6 +716,7 @@ def run(ctx, res):
             p.write_text(render(f, rng))
             r = guard(lambda: m["snu"].update_file(p, list(sol)))
             mo = model_file(o)
+            oc["update_file:" + ("error" if mo is None else "ok")] += 1
             ok = (mo is None) if isinstance(r, tuple) else (mo is not None and tokenise(p.read_text()) == mo)
             note("T6-update_file", ok, ("update_file", f, sol))
             res.count(("update", repr(f), tuple(sol)), nontrivial=len(sol) > 0)
@@ -684,7 +729,7 @@ def run(ctx, res):
         if sig not in found:
             found[sig] = (what, replay)
 
-    for _ in range(120 if q else 1500):
+    for _ in range(480 if q else 3000):
         style = rng.choice(["contig", "contig", "gaps", "empty"])
         cls = rand_cnf(rng, "contig" if style == "empty" else style, allow_empty=False, maxcl=6)
         if style == "empty":
@@ -699,7 +744,7 @@ def run(ctx, res):
             hit(sig, "combine_and_save_cnf(CNF(%r), fresh=%d, support=%d, requests=%r): %s" % (cls, fresh, sup, reqs, detail),
                 {"kind": "saved_text", "sig": sig, "cnf": cls, "fresh": fresh, "support": sup, "requests": [list(r) for r in reqs]})
         res.count(("search-text", repr(cls), fresh, sup, repr(reqs)))
-    for _ in range(60 if q else 600):
+    for _ in range(240 if q else 1200):
         sup = rng.randint(1, 6)
         n = sup + rng.randint(0, 3)
         cls = [[rand_lit(rng, range(1, n + 1)) for _ in range(rng.randint(1, 3))] for _ in range(rng.randint(1, 6))] + \
@@ -710,7 +755,7 @@ def run(ctx, res):
             hit("blocking:wrong", "update_file after solution %r on CNF(%r): %s" % (prev, cls, bad),
                 {"kind": "blocking", "cnf": cls, "support": sup, "previous": prev})
         res.count(("search-block", repr(cls), tuple(prev)))
-    for _ in range(25 if q else 250):
+    for _ in range(100 if q else 500):
         sup = rng.randint(1, 5)
         n = sup + rng.randint(0, 3)
         cls = [[rand_lit(rng, range(1, n + 1)) for _ in range(rng.randint(1, 3))] for _ in range(rng.randint(1, 6))] + \
@@ -732,7 +777,7 @@ def run(ctx, res):
             hit("loop:empty-solution-not-blocked", "compute_solutions on CNF(%r) with support=0: %s (update_file writes the "
                 "empty clause `0`, which the parser drops)" % (cls, bad), {"kind": "loop", "cnf": cls, "nvars": 3, "support": 0})
         res.count(("search-loop0", repr(cls)))
-    for _ in range(40 if q else 400):
+    for _ in range(160 if q else 800):
         n = rng.randint(0, 10)
         bools = [rng.random() < 0.5 for _ in range(n)]
         sup = rng.randint(0, n)
@@ -744,12 +789,13 @@ def run(ctx, res):
                                  "empty-clause formulas); blocking clause vs all assignments of <=6 support variables; real "
                                  "pycryptosat iterate loop and real pyunigen/pycmsgen vs brute-force projected models (<=8 variables)")
     res.extra["exhaustive"] = False
+    res.extra["model_outcomes"] = dict(sorted(oc.items()))
     for sig, (what, replay) in sorted(found.items()):
         res.violations.append(Violation(sig, what, replay))
     if found:
         res.extra["failing_sigs"] = sorted(found)
     broken = {k: v for k, v in mism.items() if v}
-    if broken and not found:
+    if broken:
         k = sorted(broken)[0]
         res.violations.append(Violation(
             "corr:" + k, "model Text/* and the real text I/O disagree on layer(s) %s, e.g. %r" % (
@@ -757,8 +803,6 @@ def run(ctx, res):
             {"layers": sorted(broken), "theorems": ["C27_parse_print", "C27_header_vars", "C27_solver_output_roundtrip",
                                                     "C27_update_file_blocks"], "first_mismatch": repr(broken[k][0])},
             failing_input=False))
-    elif broken:
-        res.notes.append("correspondence also broken on layers " + ", ".join(sorted(broken)))
 
 
 def replay(ctx, data):
